@@ -90,6 +90,16 @@ func init() {
 			in.ex.Assert(id, in.term(a[1]))
 			return unit(), true
 		},
+		"vAssertI": func(in *Interp, fn *ssa.Function, a []Value, s ssa.Instruction) (Value, bool) {
+			// assertion on an observation that only exists under the engine (e.g. a recorder stub):
+			// decided by the solver, replayed by concrete re-execution in the interpreter
+			id, ok := a[0].(StrV).concrete()
+			if !ok {
+				panic(unsupported("vAssertI id must be concrete"))
+			}
+			in.ex.AssertI(id, in.term(a[1]))
+			return unit(), true
+		},
 		"vChoose": func(in *Interp, fn *ssa.Function, a []Value, s ssa.Instruction) (Value, bool) {
 			lo, hi := in.concInt(a[0], "lo"), in.concInt(a[1], "hi")
 			return in.tt.BV(uint64(in.ex.Choose(lo, hi)), 64), true
